@@ -70,3 +70,12 @@ def time_limit(seconds=5):
     finally:
         signal.setitimer(signal.ITIMER_REAL, 0)
         signal.signal(signal.SIGALRM, old)
+
+
+def load_spec_module(name):
+    """import contracts/spec/<name>.py by path (the directory is not put on sys.path: it has an http.py)"""
+    import importlib.util
+    spec = importlib.util.spec_from_file_location("vspec_" + name, os.path.join(ROOT, "contracts", "spec", name + ".py"))
+    mod = importlib.util.module_from_spec(spec)
+    spec.loader.exec_module(mod)
+    return mod
